@@ -360,6 +360,8 @@ class Interp:
                 return self.eval(fn, S[args[0]], env)
             if n.get('copyctor') or n.get('movector'):
                 v = self.eval(fn, S[args[0]], env)
+                if cls.startswith(('std::unique_ptr', 'std::shared_ptr', 'std::__shared_ptr', 'ccl::meta::UniqueCPPtr', 'ccl::meta::PropagateConst', 'std::reference_wrapper')):
+                    return v                      # a smart pointer is modelled by its pointee: copying / moving it keeps the pointee's identity
                 return Obj(v) if isinstance(v, Obj) else v
         v = self.std_model(fn, n, env)
         if v is not NOT_HANDLED:
@@ -509,6 +511,12 @@ class Interp:
                     del o[pos[2]]
                     return ('it', o, pos[2])
                 raise OutOfFragment('vector::erase form at %s' % fn.loc(n))
+            if last == 'erase' and len(args) == 2:
+                p0, p1 = (self.eval(fn, S[x], env) for x in args)
+                if isinstance(p0, tuple) and isinstance(p1, tuple) and p0[0] == 'it' and p1[0] == 'it' and p0[1] is o and p1[1] is o and 0 <= p0[2] <= p1[2] <= len(o):
+                    del o[p0[2]:p1[2]]
+                    return ('it', o, p0[2])
+                raise OutOfFragment('vector::erase(range) form at %s' % fn.loc(n))
             if last == 'emplace_back' and not args:
                 et = (n.get('callee') or '')
                 v = set() if 'std::vector<std::unordered_set<' in et or 'std::vector<std::set<' in et else [] if 'std::vector<std::vector<' in et else None
@@ -589,6 +597,11 @@ class Interp:
                 self.assign(fn, S[n['args'][0]], nv, env)
                 return v if len(n['args']) > 1 else nv      # postfix form carries a dummy int argument
             raise OutOfFragment('iterator increment form at %s' % fn.loc(n))
+        if k == 'CXXOperatorCallExpr' and n.get('op') in ('+', '-') and cs.startswith('__gnu_cxx::__normal_iterator') and len(n.get('args', [])) == 2:
+            a, b = (self.eval(fn, S[x], env) for x in n['args'])
+            if isinstance(a, tuple) and len(a) == 3 and a[0] == 'it' and isinstance(b, int):
+                return ('it', a[1], a[2] + (b if n['op'] == '+' else -b))
+            raise OutOfFragment('iterator arithmetic form at %s' % fn.loc(n))
         if k == 'CXXOperatorCallExpr' and cs in ('__gnu_cxx::operator==', '__gnu_cxx::operator!=') and len(n.get('args', [])) == 2:
             a, b = (self.eval(fn, S[x], env) for x in n['args'])
             if isinstance(a, tuple) and isinstance(b, tuple) and a[0] == 'it' and b[0] == 'it':
@@ -655,6 +668,12 @@ class Interp:
                 if not (0 <= off and off + args[1] <= len(b) and args[1] >= 0):
                     raise OutOfFragment('string view [%d, %d) outside a buffer of %d bytes at %s' % (off, off + args[1], len(b), fn.loc(n)))
                 return bytes(b[off:off + args[1]])
+            if isinstance(args[0], list) and all(isinstance(x, int) for x in args[0]):
+                return bytes(x & 255 for x in args[0])                  # initializer_list<char>
+            if len(args) == 1 and isinstance(args[0], int) and not isinstance(args[0], bool) and 'initializer_list' in ' '.join(str(S[a].get('t', '')) for a in n.get('args', [])):
+                return bytes([args[0] & 255])
+            if len(args) == 2 and all(isinstance(x, int) and not isinstance(x, bool) for x in args):
+                return bytes([args[1] & 255]) * args[0]                 # string(count, ch)
             raise OutOfFragment('std::string constructor form at %s' % fn.loc(n))
         if k == 'CXXOperatorCallExpr' and n.get('op') == '[]' and cs.startswith(('std::basic_string::', 'std::__cxx11::basic_string::', 'std::basic_string_view::')) and len(n.get('args', [])) == 2:
             o = self.eval(fn, S[n['args'][0]], env)
@@ -682,6 +701,29 @@ class Interp:
         if k == 'CallExpr' and cs == 'std::to_string' and n.get('args'):
             v = self.eval(fn, S[n['args'][0]], env)
             return str(int(v)).encode()
+        # ---- std::stack as a list
+        if k in ('CXXConstructExpr', 'CXXTemporaryObjectExpr') and (n.get('cls') or '').startswith('std::stack') and not n.get('args'):
+            return []
+        if k == 'CXXMemberCallExpr' and 'obj' in n and cs.startswith('std::stack::'):
+            o = self.eval(fn, S[n['obj']], env)
+            if isinstance(o, list):
+                a = [self.eval(fn, S[x], env) for x in n.get('args', [])]
+                if last in ('push', 'emplace'):
+                    o.append((list(a[0]) if isinstance(a[0], list) else a[0]) if a else [])
+                    return None
+                if last == 'top':
+                    if not o:
+                        raise OutOfFragment('top() of an empty stack at %s' % fn.loc(n))
+                    return o[-1]
+                if last == 'pop':
+                    if not o:
+                        raise OutOfFragment('pop() of an empty stack at %s' % fn.loc(n))
+                    o.pop()
+                    return None
+                if last == 'empty':
+                    return not o
+                if last == 'size':
+                    return len(o)
         # ---- sets / pairs
         if k in ('CXXConstructExpr', 'CXXTemporaryObjectExpr') and (n.get('cls') or '').startswith(('std::unordered_set', 'std::set')):
             args = [self.eval(fn, S[a], env) for a in n.get('args', [])]
@@ -760,6 +802,19 @@ class Interp:
                         if isnew or last == 'insert_or_assign':
                             o[key] = val
                         return (('mapit', o, key), isnew)
+                if last in ('find', 'begin', 'end', 'cbegin', 'cend'):
+                    snaps = self.__dict__.setdefault('_mapsnaps', {})
+                    snap = snaps.get(id(o))
+                    if snap is None or len(snap) != len(o) or any(e['first'] not in o for e in snap):
+                        snap = [Obj(first=k_, second=v_) for k_, v_ in o.items()]
+                        snaps[id(o)] = snap
+                    if last == 'find':
+                        for i_, e_ in enumerate(snap):
+                            if e_['first'] == args[0]:
+                                e_['second'] = o[args[0]]
+                                return ('it', snap, i_)
+                        return ('it', snap, len(snap))
+                    return ('it', snap, 0 if 'begin' in last else len(snap))
                 if last == 'erase' and len(args) == 1 and not isinstance(args[0], tuple):
                     return 1 if o.pop(args[0], None) is not None else 0
                 if last == 'clear':
@@ -1101,6 +1156,8 @@ def _unsigned(t):
 def _binop(op, a, b, t):
     if op in ('+', '-') and isinstance(a, tuple) and len(a) == 3 and a[0] == 'sptr' and isinstance(b, int):
         return ('sptr', a[1], a[2] + (b if op == '+' else -b))
+    if op in ('+', '-') and isinstance(a, tuple) and len(a) == 3 and a[0] == 'it' and isinstance(b, int) and not isinstance(b, bool):
+        return ('it', a[1], a[2] + (b if op == '+' else -b))
     try:
         if op == '==':
             return a == b
